@@ -132,6 +132,12 @@ _exec_allowed = Contract(
 )
 
 FAMILIES = [
+    Family('Ctx15', attrs={'inference_state': Obj('InfState15')}),
+    Family('Val15', methods={'goto': FnSpec('Value.goto', params=[('name_or_str', _PN), ('name_context', Obj('Ctx15')),
+                                                                  ('analysis_errors', BOOL)],
+                                            defaults={'name_context': None, 'analysis_errors': True},
+                                            ret=Seq(Obj('NameW')), pure=True, assumed=True,
+                                            note='attribute lookup by name in a module value')}),
     Family('Detector', fields=_DET_FIELDS, attrs={'_inference_state': Obj('InfState15')},
            methods={'push_execution': _push_callee, 'pop_execution': _pop_callee}),
     Family('Execution', attrs={'tree_node': _PN, 'inference_state': Obj('InfState15')},
@@ -144,7 +150,57 @@ FAMILIES = [
     Family('RecDet', fields={'pushed_nodes': Seq(_PN)}),
 ]
 
-CONTRACTS = [_push, _pop, _wrapper, _exec_allowed]
+def _region_from_import(func):
+    for s_ in func.body:
+        if isinstance(s_, ast.If) and ast.unparse(s_.test) == 'from_import_name is not None':
+            return [s_]
+    return None
+
+
+def _replay_goto_import(inp):
+    """a package whose __init__ imports its own submodule through the package name; follow the import"""
+    from pyvc.replay import run_real
+    import tempfile
+    import shutil
+    import jedi
+    d = tempfile.mkdtemp(prefix='c15_', dir='/var/tmp')
+    try:
+        os.makedirs(os.path.join(d, 'shop'))
+        with open(os.path.join(d, 'shop', '__init__.py'), 'w') as f:
+            f.write('from shop import cart\n')
+        with open(os.path.join(d, 'shop', 'cart.py'), 'w') as f:
+            f.write('total = 1\n')
+        code = 'from shop import cart\ncart\n'
+        s = jedi.Script(code, path=os.path.join(d, 'main.py'), project=jedi.Project(d))
+        out = run_real(lambda: [str(n.module_path) for n in s.goto(2, 1, follow_imports=True)])
+        s2 = jedi.Script('from shop import cart\n', path=os.path.join(d, 'shop', '__init__.py'), project=jedi.Project(d))
+        out2 = run_real(lambda: [str(n.module_path) for n in s2.goto(1, 18, follow_imports=True)])
+        if out['kind'] == 'return' and out2['kind'] != 'return':
+            out = out2
+        return {}, out
+    finally:
+        shutil.rmtree(d, ignore_errors=True)
+
+
+_goto_import = Contract(
+    id='C15.goto_import.from-branch', prop='C15',
+    clause='goto on a from-import never answers with the import name itself (following imports on such an answer '
+           'would recurse forever): names found by attribute lookup are returned only if none of them IS the queried '
+           'tree name; otherwise the importer is asked',
+    file='jedi/inference/imports.py', qualname='goto_import', region=_region_from_import,
+    params={'context': Obj('Ctx15'), 'tree_name': _PN},
+    free={'from_import_name': Opt(_PN), 'import_path': Seq(ANY), 'level': INT, 'values': Seq(Obj('Val15')),
+          'module_context': Obj('Ctx15')},
+    families=['Ctx15', 'Val15', 'NameW', 'PNode', 'InfState15'], ret=Opt(Seq(Obj('NameW'))),
+    ensures=['implies(result is not None, all(n.tree_name is not tree_name for n in result))',
+             'implies(result is not None, len(result) >= 1)'],
+    witness={}, replay=_replay_goto_import, concrete_only=True, witness_library=[{}],
+    concrete_ensures=['True'],
+    notes='block contract on the `if from_import_name is not None:` statement; a RecursionError in the replay '
+          '(exception escapes) confirms the violation',
+)
+
+CONTRACTS = [_push, _pop, _wrapper, _exec_allowed, _goto_import]
 
 
 # ---------------------------------------------------------------- structural: guards in place
@@ -172,6 +228,66 @@ WITH_GUARDS = [
 ]
 RESET_QUERIES = ['complete', 'infer', 'goto', 'help', 'get_references', 'get_signatures', '_names',
                  '_analysis', 'search', 'complete_search']
+
+
+# functions whose memo stores a default BEFORE computing, so that re-entry (a definition that refers to itself
+# through any cycle) sees the default instead of recursing: (file, qualname) -> default expression
+RECURSION_CUT_DEFAULTS = {
+    ('jedi/inference/dynamic_params.py', '_search_function_arguments'): 'None',
+    ('jedi/inference/imports.py', 'infer_import'): 'NO_VALUES',
+    ('jedi/inference/imports.py', 'goto_import'): '[]',
+    ('jedi/inference/names.py', 'TreeNameDefinition.py__doc__'): "''",
+    ('jedi/inference/syntax_tree.py', '_infer_node_cached'): 'NO_VALUES',
+    ('jedi/inference/sys_path.py', 'check_sys_path_modifications'): '[]',
+    ('jedi/inference/compiled/mixed.py', 'MixedObject.py__call__'): 'NO_VALUES',
+    ('jedi/inference/value/dynamic_arrays.py', '_internal_check_array_additions'): 'NO_VALUES',
+    ('jedi/inference/value/function.py', 'BaseFunctionExecutionContext.get_return_values'): 'NO_VALUES',
+    ('jedi/inference/value/instance.py', 'TreeInstance._get_annotated_class_object'): 'None',
+    ('jedi/inference/value/iterable.py', 'ComprehensionMixin._iterate'): '[]',
+    ('jedi/inference/value/klass.py', 'ClassMixin.is_typeddict'): 'False',
+    ('jedi/inference/value/klass.py', 'ClassValue.py__bases__'): '()',
+    ('jedi/inference/value/klass.py', 'ClassValue.get_metaclasses'): 'NO_VALUES',
+    ('jedi/inference/value/module.py', 'ModuleMixin.star_imports'): '[]',
+}
+
+
+def structural_defaults(repo):
+    """every memoised function that cuts recursion with a stored default still does"""
+    from pyvc import inventory as inv
+    found = {}
+    for rel, path in inv.py_files(repo):
+        try:
+            t = inv.parse(path)
+        except SyntaxError:
+            continue
+        enc = inv._enclosing(t)
+        for fn in ast.walk(t):
+            if not isinstance(fn, ast.FunctionDef):
+                continue
+            for d in fn.decorator_list:
+                if isinstance(d, ast.Call) and ast.unparse(d.func).split('.')[-1] in (
+                        'inference_state_method_cache', 'inference_state_function_cache',
+                        'inference_state_method_generator_cache'):
+                    q = fn.name
+                    dflt = None
+                    if d.args:
+                        dflt = ast.unparse(d.args[0])
+                    for k in d.keywords:
+                        if k.arg == 'default':
+                            dflt = ast.unparse(k.value)
+                    found[(rel.replace(os.sep, '/'), q)] = dflt
+    out = []
+    for key, want in sorted(RECURSION_CUT_DEFAULTS.items()):
+        key = (key[0], key[1].split('.')[-1])
+        if key not in found:
+            out.append({'id': 'cut-default:%s' % key[1], 'kind': 'inventory', 'ok': None,
+                        'label': 'memoised function %s not found in %s (shape changed)' % (key[1], key[0])})
+            continue
+        out.append({'id': 'cut-default:%s' % key[1], 'kind': 'inventory', 'ok': found[key] is not None,
+                    'label': 'give-up guard in place: the memo of %s stores a default before computing, so a '
+                             'definition that reaches itself again (any cycle) gets the default instead of recursing'
+                             % key[1], 'detail': 'default now: %r (registered: %s)' % (found[key], want)})
+    return out
 
 
 def _find(tree, qualname):
@@ -265,9 +381,21 @@ def _calls_reset(tree, name):
     return fn is not None and 'reset_recursion_limitations()' in ast.unparse(fn)
 
 
-STRUCTURAL = [structural_guards]
+STRUCTURAL = [structural_guards, structural_defaults]
 NOT_DECIDED = ['that the guards cut every cycle of the (dynamically dispatched) call graph',
                'RecursionError from Python frame depth alone', 'polynomial cost',
                '_memoize_default / generator cache / _limit_value_infers wrappers: contracts pending']
 TRUSTED = ['module-level limits are read from the current source (re-tuning a constant is not an alarm)',
            'debug.* calls have no effect on analysed state']
+
+
+def register(reg):
+    NW = Obj('NameW')
+    reg.names['unite'] = FnSpec('unite', params=[('iterable', Seq(Seq(NW)))], ret=Seq(NW), pure=True, assumed=True,
+                                note='jedi.common.unite: the union of the given name collections')
+    imp = FnSpec('Importer', params=[('inference_state', Obj('InfState15')), ('import_path', ANY),
+                                     ('module_context', Obj('Ctx15')), ('level', INT)],
+                 defaults={'level': 0}, ret=Obj('Importer15'), pure=True, assumed=True)
+    reg.names['Importer'] = imp
+    reg.add_family(Family('Importer15', methods={'follow': FnSpec('Importer.follow', ret=Seq(Obj('Val15')), pure=True,
+                                                                 assumed=True)}))
